@@ -281,7 +281,8 @@ func ruleQ2(c *an.Ctx, quote *ssa.Function) {
 		return false
 	}
 	// escape writes: a write of the backslash byte or of a string constant starting with a backslash
-	isEscapeWrite := func(in ssa.Instruction) bool {
+	var isEscapeWrite func(in ssa.Instruction) bool
+	isEscapeWrite = func(in ssa.Instruction) bool {
 		cl, ok := in.(*ssa.Call)
 		if !ok || cl.Call.StaticCallee() == nil {
 			return false
@@ -292,6 +293,24 @@ func ruleQ2(c *an.Ctx, quote *ssa.Function) {
 		case "mustWriteString":
 			cv, ok := an.ConstVal(cl.Call.Args[1])
 			return ok && cv.Kind() == constant.String && strings.HasPrefix(constant.StringVal(cv), `\`)
+		}
+		// a private helper that writes the escape on every path (writeJsonByteEscape(w, b))
+		if h := cl.Call.StaticCallee(); h.Blocks != nil && h.Pkg == quote.Pkg && h != quote {
+			md := &an.MustDo{Pred: func(x ssa.Instruction) bool {
+				c2, ok := x.(*ssa.Call)
+				if !ok || c2.Call.StaticCallee() == nil {
+					return false
+				}
+				switch c2.Call.StaticCallee().Name() {
+				case "mustWriteByte":
+					return an.IsIntConst(c2.Call.Args[1], '\\')
+				case "mustWriteString":
+					cv, ok := an.ConstVal(c2.Call.Args[1])
+					return ok && cv.Kind() == constant.String && strings.HasPrefix(constant.StringVal(cv), `\`)
+				}
+				return false
+			}, Depth: 1}
+			return md.Fn(h)
 		}
 		return false
 	}
@@ -317,12 +336,15 @@ func ruleQ2(c *an.Ctx, quote *ssa.Function) {
 		name string
 		pred func(an.Rel) bool
 	}
+	// the byte may have been handed to a predicate helper (isPlainJsonByte(b)): r.Arg maps the
+	// helper's parameter back to the caller's value
+	isB := func(r an.Rel) bool { return isByte(r.X) || isByte(r.Arg(r.X)) }
 	guards := []guard{
 		{"b >= 0x20", func(r an.Rel) bool {
-			return (r.Op == token.GEQ && isByte(r.X) && an.IsIntConst(r.Y, 0x20)) || (r.Op == token.GTR && isByte(r.X) && an.IsIntConst(r.Y, 0x1f))
+			return (r.Op == token.GEQ && isB(r) && an.IsIntConst(r.Y, 0x20)) || (r.Op == token.GTR && isB(r) && an.IsIntConst(r.Y, 0x1f))
 		}},
-		{`b != '"'`, func(r an.Rel) bool { return r.Op == token.NEQ && isByte(r.X) && an.IsIntConst(r.Y, '"') }},
-		{`b != '\\'`, func(r an.Rel) bool { return r.Op == token.NEQ && isByte(r.X) && an.IsIntConst(r.Y, '\\') }},
+		{`b != '"'`, func(r an.Rel) bool { return r.Op == token.NEQ && isB(r) && an.IsIntConst(r.Y, '"') }},
+		{`b != '\\'`, func(r an.Rel) bool { return r.Op == token.NEQ && isB(r) && an.IsIntConst(r.Y, '\\') }},
 	}
 	n := 0
 	for _, b := range quote.Blocks {
@@ -352,62 +374,74 @@ func ruleQ2(c *an.Ctx, quote *ssa.Function) {
 	// emitted escape letters
 	letters := map[byte]bool{}
 	var strs []string
-	an.Instrs(quote, func(in ssa.Instruction) {
-		cl, ok := in.(*ssa.Call)
-		if !ok || cl.Call.StaticCallee() == nil {
-			return
+	letterHosts := []*ssa.Function{quote}
+	for _, g := range familyOf(p, quote, 1) {
+		if g != quote && g.Pkg == quote.Pkg {
+			letterHosts = append(letterHosts, g)
 		}
-		switch cl.Call.StaticCallee().Name() {
-		case "mustWriteByte":
-			if cv, ok := an.ConstVal(cl.Call.Args[1]); ok && cv.Kind() == constant.Int {
-				v, _ := constant.Int64Val(cv)
-				if v != '"' && v != '\\' {
-					letters[byte(v)] = true
-				}
-			} else {
-				// the letter may come out of a private lookup helper (byte -> escape letter): its
-				// constant results are the letters
-				sl := newSlice(quote)
-				sl.add(cl.Call.Args[1])
-				for v := range sl.seen {
-					hc, ok := v.(*ssa.Call)
-					if !ok {
-						continue
+	}
+	for _, lhost := range letterHosts {
+		lhost := lhost
+		an.Instrs(lhost, func(in ssa.Instruction) {
+			cl, ok := in.(*ssa.Call)
+			if !ok || cl.Call.StaticCallee() == nil {
+				return
+			}
+			switch cl.Call.StaticCallee().Name() {
+			case "mustWriteByte":
+				if cv, ok := an.ConstVal(cl.Call.Args[1]); ok && cv.Kind() == constant.Int {
+					v, _ := constant.Int64Val(cv)
+					if v != '"' && v != '\\' {
+						letters[byte(v)] = true
 					}
-					h := hc.Call.StaticCallee()
-					if h == nil || h.Blocks == nil || h.Pkg != quote.Pkg {
-						continue
-					}
-					an.Instrs(h, func(in2 ssa.Instruction) {
-						r, ok := in2.(*ssa.Return)
-						if !ok || len(r.Results) != 1 {
-							return
+				} else {
+					// the letter may come out of a private lookup helper (byte -> escape letter): its
+					// constant results are the letters
+					sl := newSlice(lhost)
+					sl.add(cl.Call.Args[1])
+					for v := range sl.seen {
+						hc, ok := v.(*ssa.Call)
+						if !ok {
+							continue
 						}
-						vals := []ssa.Value{an.RetVal(r, 0)}
-						if ph, ok := vals[0].(*ssa.Phi); ok {
-							vals = ph.Edges
+						h := hc.Call.StaticCallee()
+						if h == nil || h.Blocks == nil || h.Pkg != quote.Pkg {
+							continue
 						}
-						for _, rv := range vals {
-							if cv, ok := an.ConstVal(rv); ok && cv.Kind() == constant.Int {
-								v, _ := constant.Int64Val(cv)
-								if v > 0 && v != '"' && v != '\\' {
-									letters[byte(v)] = true
+						an.Instrs(h, func(in2 ssa.Instruction) {
+							r, ok := in2.(*ssa.Return)
+							if !ok {
+								return
+							}
+							if len(r.Results) == 0 {
+								return
+							}
+							vals := []ssa.Value{r.Results[0]}
+							if ph, ok := vals[0].(*ssa.Phi); ok {
+								vals = ph.Edges
+							}
+							for _, rv := range vals {
+								if cv, ok := an.ConstVal(rv); ok && cv.Kind() == constant.Int {
+									v, _ := constant.Int64Val(cv)
+									if v > 0 && v != '"' && v != '\\' {
+										letters[byte(v)] = true
+									}
 								}
 							}
-						}
-					})
+						})
+					}
+				}
+			case "mustWriteString":
+				if cv, ok := an.ConstVal(cl.Call.Args[1]); ok && cv.Kind() == constant.String {
+					s := constant.StringVal(cv)
+					if strings.HasPrefix(s, `\`) && len(s) > 1 {
+						letters[s[1]] = true
+						strs = append(strs, s)
+					}
 				}
 			}
-		case "mustWriteString":
-			if cv, ok := an.ConstVal(cl.Call.Args[1]); ok && cv.Kind() == constant.String {
-				s := constant.StringVal(cv)
-				if strings.HasPrefix(s, `\`) && len(s) > 1 {
-					letters[s[1]] = true
-					strs = append(strs, s)
-				}
-			}
-		}
-	})
+		})
+	}
 	// the lexer's string rule
 	var rule string
 	initFns := append([]*ssa.Function{}, p.FuncsOf(pkgSyntax)...)
